@@ -2,7 +2,7 @@
 // SPDX-License-Identifier: Apache-2.0
 // Copyright (c) A5 contributors
 
-use crate::core::serialization::FIRST_HILBERT_RESOLUTION;
+use crate::core::serialization::{FIRST_HILBERT_RESOLUTION, MAX_RESOLUTION};
 
 const AUTHALIC_AREA: f64 = 510065624779439.1; // m^2 - matches JavaScript Math.PI precision
 
@@ -17,6 +17,10 @@ const AUTHALIC_AREA: f64 = 510065624779439.1; // m^2 - matches JavaScript Math.P
 /// Number of cells at the given resolution
 pub fn get_num_cells(resolution: i32) -> u64 {
     if resolution < 0 {
+        return 0;
+    }
+    // There are no cells beyond the maximum resolution (and 60 * 4^(r - 1) overflows u64 there)
+    if resolution > MAX_RESOLUTION {
         return 0;
     }
     if resolution == 0 {
@@ -115,6 +119,7 @@ pub fn cell_area(resolution: i32) -> f64 {
         28 => 0.0004719055005832909,
         29 => 0.00011797637514582271,
         30 => 0.00002949409378645568,
-        _ => AUTHALIC_AREA / (get_num_cells(resolution) as f64),
+        // No cells beyond the maximum resolution
+        _ => 0.0,
     }
 }
